@@ -118,3 +118,23 @@ prop("C10",
      level_text="Kernel-evaluated exhaustive exploration of the protocol LTS for every operation kind x outcome class x sync mode under all interleavings of exit/cancel/kill/reply, lifted by induction to every finite history: after every call host and container are in sync with empty channels, every call gets exactly its own answer, a Ping afterwards always succeeds, transport loss never blocks the host; witness theorem for the pinned tree's desynchronisation; trace inclusion of real two-endpoint logs into the model",
      level_note="Trusted: Lean kernel; the protocol model is hand written and tied to the code by trace inclusion on sampled histories (not a proof of refinement)",
      technique="Lean 4 exhaustive LTS exploration (decide +kernel) + induction over histories + trace-inclusion correspondence")
+
+prop("C11",
+     trusted_base=["hand LTS Model/Cancel.lean of the ptrace launch/cancel race (child: clone, setsid, self-stop, run, exit; canceller goroutine; trace loop) with kill(-pgid) answering ESRCH while no process group exists",
+                   "Go-lite run of one iteration of the regenerated trace loop (Gen.C11.traceLoop, with Gen.C09.ptraceHandle inside) and of killAll in both runners",
+                   "container: the protocol LTS of C10 (Model/Rpc.lean) with cancellation enabled at every host location"],
+     assumptions=["real-time bounds (returns within 3 s) are observed by the harness, not proved; scheduler behaviour is a model parameter (all interleavings of the modelled steps)",
+                  "SIGKILL of a process group terminates every member, stopped or not (kernel law)"],
+     not_covered="namespace runner: Start returns only after the exec, so the group exists when the canceller can fire; covered by real runs only",
+     level_text="Exhaustive kernel-evaluated exploration of the cancellation race: under every interleaving the run ends, after the canceller's kill the program is never running again, Normal is only reported for a program that ended on its own before that kill; witness for the pinned tree's lost cancellation; tie of the repeated group kill to the regenerated trace loop; container cancellation terminates in sync in every interleaving; real cancellation sweeps in all three runners incl. the pinned early-cancel race, Destroy during in-flight calls",
+     level_note="PARTIAL: theorem about code composed with assumed kernel/scheduler model; real-time promptness observed only. Trusted: Lean kernel, hand LTS, translator + Go-lite",
+     technique="Lean 4 exhaustive LTS exploration (decide +kernel) + regenerated-code tie + real cancellation sweeps")
+
+prop("C16",
+     trusted_base=["protocol LTS Model/Rpc.lean extended with 'host killed in any reachable state' (crashSteps): the container consumes what is in flight, a receive on the closed empty socket is EOF",
+                   "extracted facts (Gen.C16): every select statement of the container package with its communication clauses, the SysProcAttr of the init, the ptrace options"],
+     assumptions=["kernel laws: PDEATHSIG is delivered when the creating thread's process dies; EOF is delivered to a blocked or later recvmsg; exit of a pid-namespace init kills the namespace; tracer exit kills PTRACE_O_EXITKILL tracees"],
+     not_covered="blocking channel operations of the container outside select statements (waitPid/waitAll hand-offs to the reaper) are bounded by the preceding kill(-1); covered by the crash-point runs",
+     level_text="Kernel-evaluated theorem: from every reachable state of every operation, once the host is gone every continuation of the container ends in exit (by EOF alone); extracted-code theorems: every blocking select of the container has the done alternative, Pdeathsig=SIGKILL, PTRACE_O_EXITKILL; a real controller process is SIGKILLed at each announced protocol point and at random instants and the pid namespace / process group must be empty within the bound",
+     level_note="PARTIAL: kernel delivery laws assumed. Trusted: Lean kernel, hand protocol model (tied by C10's trace inclusion), extractor",
+     technique="Lean 4 exhaustive crash-point exploration (decide +kernel) + extracted-code facts + crash-point enumeration against real processes")
